@@ -219,6 +219,48 @@ def render_args(ctx, case):
     ctx.note('plain', p)
 
 
+def colour_options(ctx, case):
+    """which of the two colour modes a run is in is decided by the options as documented (-C / --no-color wins over --color; otherwise --color,
+    otherwise whether standard output is a terminal), and a run that decided `no colour` emits no escape sequence afterwards"""
+    import io, contextlib, logging, sys
+    logging.disable(logging.CRITICAL)
+    from frontends.tui import arguments
+    from core import util, wl, matcher
+    opts = ctx.choose([[], ['-C'], ['--no-color'], ['--color'], ['-C', '--color'], ['--color', '-C'], ['--color', '--no-color'], ['--no-color', '--color', '--supress'], ['-C', '-C']], 'options')
+    tty = ctx.choose([False, True], 'stdout_is_a_terminal')
+    in_gdb = ctx.choose([False, True], 'inside_gdb')
+    mode = ctx.choose([['-l', 'x.log'], ['-p']], 'mode')
+
+    class Out(io.StringIO):
+        def isatty(self):
+            return tty
+    saved = (arguments.check_gdb, util.color_output)
+    arguments.check_gdb = lambda: in_gdb
+    a = None
+    try:
+        with contextlib.redirect_stdout(Out()), contextlib.redirect_stderr(io.StringIO()):
+            try:
+                a = arguments.parse_args(['main.py'] + opts + (mode if not in_gdb else []))
+            except SystemExit:
+                a = None
+    finally:
+        arguments.check_gdb = saved[0]
+    ctx.check('the options are accepted', a is not None)
+    if a is None:
+        return
+    off = any(o in ('-C', '--no-color') for o in opts)
+    want = False if off else (True if '--color' in opts else (tty or in_gdb))
+    ctx.check('colour is %s for options %r (terminal: %s, inside GDB: %s)' % ('on' if want else 'off', opts, tty, in_gdb), a.show_color is want)
+    try:
+        util.set_color_output(a.show_color)
+        m = wl.message.MockMessage(1.5, wl.object.MockObject(None, 0.0, 7, 1, 'wl_surface'), True, 'attach', (wl.Arg.Null('wl_buffer'), wl.Arg.Int(3)))
+        text = str(m) + util.color('1;31', 'x') + str(matcher.parse('wl_surface.attach(3)'))
+        if not want:
+            ctx.check('a run with colour off emits no escape sequence', chr(27) not in text)
+    finally:
+        util.color_output = saved[1]
+
+
 def render_messages(ctx, case):
     import logging
     logging.disable(logging.CRITICAL)
@@ -365,6 +407,8 @@ def obligations(tier):
         ch.ob('strip-reachable', 'harness.ch_c17', 'twin_strip', 'reachability twin', FUNCS[:2], '', T, expect_cex=True),
         Ob('render-arguments', 'symx', 'every argument kind x name x labels x typed/resolved/new x payload pool: coloured stripped == plain', FUNCS[2:11], 'structure exhaustive over the listed choices; payload pool of %d texts' % len(PAYLOADS),
            render_args, cases=['int', 'float', 'string', 'null', 'object', 'fd', 'array', 'unknown']),
+        Ob('colour-options', 'symx', 'which colour mode a run is in follows the documented options (-C/--no-color wins, then --color, then terminal / GDB); a run in the no-colour mode emits no escape sequence',
+           ['frontends.tui.arguments:parse_args', 'core.util:set_color_output', 'core.util:color'], '9 option vectors x terminal or not x inside GDB or not x 2 modes', colour_options, cases=[None]),
         Ob('render-messages', 'symx', 'Message.__str__/show: direction, target kinds, arguments, destroyed annotation, connection prefix', FUNCS[11:13], 'structure exhaustive over the listed choices', render_messages, cases=[None]),
         Ob('render-session', 'symx', 'a whole decoded session (notices, resolution, enum labels, passthrough, unknown interface) followed by one command, colour on vs off', FUNCS[11:],
            '11-line log; commands: list, list with matcher, filter, breakpoint, connection, help, help matcher, matcher, unknown, empty', render_session,
